@@ -58,6 +58,10 @@ fn fault_menu(thorough: bool) -> Vec<(String, String)> {
         // real solvers print multi-line messages (z3 on unknown options, cvc5 parse errors)
         "first line\nsecond line".into(),
         "option (a\nb) is unknown".into(),
+        // backslashes are ordinary characters of an SMT-LIB 2.6 string literal, also right before the closing quote
+        "cannot open C:\\models\\lib\\".into(),
+        "mid\\dle (".into(),
+        "\\".into(),
     ];
     for m in msgs.iter() {
         v.push(("error".into(), m.clone()));
